@@ -13,7 +13,7 @@ DEFAULT_PROFILE = dict(
     coord_classes=("linear", "tight", "log", "posnolog", "unbounded"),
     allow_mixed_unbounded=False,  # bounded + unbounded coordinates in one problem (C08 cell)
     p_plausible_omitted=0.12,
-    x0_classes=("interior", "on_lb", "on_ub", "near", "at_plb", "at_pub", "out_plausible"),
+    x0_classes=("interior", "on_lb", "on_ub", "near", "near2", "at_plb", "at_pub", "out_plausible"),
     p_x0_none=0.12,
     noise_modes=("none", "none", "none", "auto", "declared", "specified"),
     p_cons=0.3,
@@ -144,7 +144,7 @@ def x0_coord(draw, c, cls):
     lb, ub, plb, pub = c["lb"], c["ub"], c["plb"], c["pub"]
     t = draw(st.sampled_from([0.5, 0.25, 0.75, 0.1, 0.9, 0.37]))
     interior = plb + t * (pub - plb)
-    if cls == "interior" or (math.isinf(lb) and cls in ("on_lb", "on_ub", "near")):
+    if cls == "interior" or (math.isinf(lb) and cls in ("on_lb", "on_ub", "near", "near2")):
         return interior
     if cls == "on_lb":
         return lb
@@ -152,6 +152,10 @@ def x0_coord(draw, c, cls):
         return ub
     if cls == "near":
         return lb + 1e-4 * (ub - lb) if draw(st.booleans()) else ub - 1e-4 * (ub - lb)
+    if cls == "near2":
+        # just inside the 0.1% repair margin (not repaired): gridisation can still round it past a bound of a log-scaled variable
+        f = draw(st.sampled_from([1.1e-3, 1.3e-3, 1.6e-3]))
+        return lb + f * (ub - lb) if draw(st.booleans()) else ub - f * (ub - lb)
     if cls == "at_plb":
         return plb
     if cls == "at_pub":
@@ -313,6 +317,7 @@ def scenario(draw, p=None):
                 cz[i] = z_of(coords[i], effective_x0(coords[i], x0[i]), nonlinear)
     scale = draw(st.sampled_from(list(p.get("scales", (1.0, 1.0, 1e-2, 10.0, 1e2, 1e4)))))
     tgt = dict(kind=kind, c=cz, scale=scale, offset=draw(st.sampled_from([0.0, 0.0, -3.5, 1000.0])),
+               callable=draw(st.sampled_from(list(p.get("callable_kinds", ("function", "function", "function", "object", "method"))))),
                z=zs, out=draw(st.sampled_from(p["out_spellings"])), ccls=ccls)
     if kind == "quad":
         tgt["A"] = draw(rotation_spd(D))
